@@ -196,6 +196,28 @@ ApplyDefined(f, v, a) ==
     [] OTHER -> Nil
 
 ----------------------------------------------------------------------------
+(* tags that work on rendered text *)
+SelectSeqIdx(s, Keep(_)) == LET idx == SelectSeq([i \in 1..Len(s) |-> i], Keep) IN [k \in 1..Len(idx) |-> s[idx[k]]]
+\* spaceless: white space between two tags is removed - a maximal run of white space directly after a ">" that closes a
+\* tag written on one line and directly before a "<" that opens one
+SpWS(a) == a \in {" ", "NL", "TAB", "CR"}
+Removable(s, i, j) ==       \* s[i..j] is a maximal white-space run
+  /\ i > 1 /\ s[i - 1] = ">"
+  /\ \E p \in 1..(i - 2) : s[p] = "<" /\ \A q \in (p + 1)..(i - 2) : s[q] # "NL"
+  /\ j < Len(s) /\ s[j + 1] = "<"
+  /\ \E p \in (j + 2)..Len(s) : s[p] = ">" /\ \A q \in (j + 2)..(p - 1) : s[q] # "NL"
+MaxRun(s, i, j) == /\ i <= j /\ \A q \in i..j : SpWS(s[q])
+                   /\ (i = 1 \/ ~SpWS(s[i - 1])) /\ (j = Len(s) \/ ~SpWS(s[j + 1]))
+Spaceless(s) == SelectSeqIdx(s, LAMBDA q : ~\E i \in 1..q : \E j \in q..Len(s) : MaxRun(s, i, j) /\ Removable(s, i, j))
+
+TemplateTagText(name) ==
+  CASE name = "openblock" -> <<"{", "%">> [] name = "closeblock" -> <<"%", "}">> [] name = "openvariable" -> <<"{", "{">>
+    [] name = "closevariable" -> <<"}", "}">> [] name = "openbrace" -> <<"{">> [] name = "closebrace" -> <<"}">>
+    [] name = "opencomment" -> <<"{", "#">> [] name = "closecomment" -> <<"#", "}">>
+\* widthratio value max width: value / max * width rounded to the nearest integer (exact halves are not generated)
+RoundDiv(num, m) == LET q == num \div m r == num % m IN IF 2 * r >= m THEN q + 1 ELSE q
+
+----------------------------------------------------------------------------
 (* the interpreter *)
 DerefCyc(v) == IF v.k = "cyc" THEN V("stringer", 0, StrOf(v.l[1]), <<>>) ELSE v
 
@@ -441,6 +463,16 @@ Exec(n, st) ==
          IF st1.err # "" THEN st1
          ELSE LET r == EvalTagChain(n.chain, 1, R(S(PiecesStr(st1.out)), st1, FALSE), [st1 EXCEPT !.out = st.out]) IN
               IF r.st.err # "" THEN r.st ELSE Emit(r.st, W(r.v, 0))
+    [] n.t = "spaceless" ->
+         LET st1 == ExecSeq(n.body, [st EXCEPT !.out = <<>>], 1) IN
+         IF st1.err # "" THEN st1 ELSE [st1 EXCEPT !.out = Append(st.out, S(Spaceless(PiecesStr(st1.out))))]
+    [] n.t = "templatetag" -> Emit(st, S(TemplateTagText(n.name)))
+    [] n.t = "comment" -> st                 \* nothing of a comment tag's body is executed
+    [] n.t = "widthratio" ->
+         LET ra == Eval(n.a, st) IN LET rm == Eval(n.m, ra.st) IN LET rw == Eval(n.w, rm.st) IN
+         IF rw.st.err # "" THEN rw.st
+         ELSE LET value == I(RoundDiv(ra.v.n * rw.v.n, rm.v.n)) IN
+              IF n.as = "" THEN Emit(rw.st, W(value, 0)) ELSE Bind(rw.st, n.as, value)     \* `as` binds in the current scope, like set
     [] n.t = "include" ->
          \* the included template is a render of its own: it sees the includer's view (tag-set names over the caller's
          \* context) plus the pairs, or the pairs alone with `only`; nothing it binds survives; per-render tag state is its own
